@@ -378,16 +378,18 @@ func (l c20) Exec(env *core.Env) *core.Result {
 					}
 				}
 				if unknown[name] {
-					if err == nil && !faulted {
-						// a clean successful install re-establishes a known state; the rules
-						// cannot be judged against the unknown previous state
-						unknown[name] = false
-						if !fromDir {
-							want = map[string]string{"notation-" + name: string(exe)}
-						}
-						model[name] = &c20Plugin{files: want, version: version}
+					if err != nil || faulted {
+						continue
 					}
-					continue
+					// a clean successful install re-establishes a known state. The version rules
+					// cannot be judged against the unknown previous state, but what the statement
+					// says about the result of a successful installation holds whatever was there
+					// before (the remains of an interrupted or failed installation included).
+					unknown[name] = false
+					old = nil
+					mustRefuse = !usable || !metaOK
+					mustAccept = !mustRefuse
+					res.Probe("successful_install_over_remains_of_a_failed_one")
 				}
 				if faulted {
 					if err != nil {
